@@ -1,5 +1,6 @@
 import Ptn.C04.Core
 import Ptn.C04.Value
+import Ptn.C04.ValueOp
 /-! Property theorems for C04: the leg-graph theorems are in `Core.lean` (core Lean only), the value-level
 theorem in `Value.lean` (over `Ptn/Common/Einsum*.lean`, single Mathlib modules).  This file only adds the
 non-vacuity example of the value-level theorem. -/
@@ -80,5 +81,87 @@ is the dense inner product, here the integer 2062 -/
 example : sumPairs (fun _ => 2) (physPairs demoTree)
     (fun τ => (ketExpr demoKv demoTree).eval (fun _ => 2) τ * (braExpr demoBv demoBraKids demoTree).eval (fun _ => 2) τ)
     (fun _ => 0) = 2062 := by decide
+
+/-! ### `expectation_value_value`: the three layers on the two-node tree -/
+
+/-- a leaf tensor with integer entries that reads exactly the three given legs -/
+def demoLeaf3 (a b c : Leg) (k : Int) : Expr Leg Int :=
+  Expr.leaf [a, b, c] (fun σ => (σ a : Int) + k * (σ b : Int) + (σ b : Int) * (σ c : Int) + 1)
+
+theorem demoLeaf3_swf (a b c : Leg) (k : Int) (h : [a, b, c].Nodup) : (demoLeaf3 a b c k).SWF := by
+  refine ⟨h, ?_⟩
+  intro σ τ hst
+  show (σ a : Int) + k * (σ b : Int) + (σ b : Int) * (σ c : Int) + 1 =
+    (τ a : Int) + k * (τ b : Int) + (τ b : Int) * (τ c : Int) + 1
+  rw [hst a (by simp), hst b (by simp), hst c (by simp)]
+
+def demoO : Expr Leg Int :=
+  Expr.dot (demoLeaf3 (Leg.gOp 1 0) (Leg.gOpOut 1) (Leg.gOpIn 1) 2) (demoLeaf3 (Leg.gOp 0 1) (Leg.gOpOut 0) (Leg.gOpIn 0) 3)
+    [opEdge 0 1]
+def demoIn : List (Leg × Leg) := [physIn 0, physIn 1]
+def demoOut : List (Leg × Leg) := [physOut 0, physOut 1]
+def demoE3 : Expr Leg Int := Expr.dot (Expr.dot demoK demoO demoIn) demoB demoOut
+
+/-- the hypotheses of `expectation_value_value` are satisfiable: on the two-node tree the program "apply the
+operator to the ket, then contract with the bra" meets every premise (all dimensions 2) -/
+example : demoE3.SWF ∧ demoK.WF ∧ demoO.WF ∧ demoB.WF ∧
+    (∀ l ∈ demoK.labels, l ∉ demoO.labels) ∧ (∀ l ∈ demoK.labels, l ∉ demoB.labels) ∧
+    (∀ l ∈ demoO.labels, l ∉ demoB.labels) ∧
+    (demoOut ++ ((demoIn ++ (demoK.binds ++ demoO.binds)) ++ demoB.binds)).Perm (soSpec demoTree) ∧
+    (∀ p ∈ demoIn, p.1 ∈ demoK.free ∧ p.2 ∈ demoO.free) ∧
+    (∀ p ∈ demoOut, (p.1 ∈ demoO.free ∧ p.1 ∉ demoIn.map Prod.snd) ∧ p.2 ∈ demoB.free) ∧
+    (∀ p ∈ soSpec demoTree, (fun _ : Leg => 2) p.1 = (fun _ : Leg => 2) p.2) ∧
+    (∀ σ, demoE3.leafProd σ = demoK.leafProd σ * demoO.leafProd σ * demoB.leafProd σ) := by
+  have hK : demoK.SWF := by
+    refine ⟨demoLeaf_swf _ _ _ (by decide), demoLeaf_swf _ _ _ (by decide), ?_, ?_, ?_, ?_⟩ <;>
+      simp [demoLeaf, Expr.labels, Expr.free, ketEdge]
+  have hB : demoB.SWF := by
+    refine ⟨demoLeaf_swf _ _ _ (by decide), demoLeaf_swf _ _ _ (by decide), ?_, ?_, ?_, ?_⟩ <;>
+      simp [demoLeaf, Expr.labels, Expr.free, braEdge]
+  have hO : demoO.SWF := by
+    refine ⟨demoLeaf3_swf _ _ _ _ (by decide), demoLeaf3_swf _ _ _ _ (by decide), ?_, ?_, ?_, ?_⟩ <;>
+      simp [demoLeaf3, Expr.labels, Expr.free, opEdge]
+  have hKO : ∀ l ∈ demoK.labels, l ∉ demoO.labels := by
+    simp [demoK, demoO, demoLeaf, demoLeaf3, Expr.labels]
+  have hKB : ∀ l ∈ demoK.labels, l ∉ demoB.labels := by
+    simp [demoK, demoB, demoLeaf, Expr.labels]
+  have hOB : ∀ l ∈ demoO.labels, l ∉ demoB.labels := by
+    simp [demoO, demoB, demoLeaf, demoLeaf3, Expr.labels]
+  have hin : ∀ p ∈ demoIn, p.1 ∈ demoK.free ∧ p.2 ∈ demoO.free := by
+    simp [demoIn, demoK, demoO, demoLeaf, demoLeaf3, Expr.free, physIn, ketEdge, opEdge]
+  have hout : ∀ p ∈ demoOut, (p.1 ∈ demoO.free ∧ p.1 ∉ demoIn.map Prod.snd) ∧ p.2 ∈ demoB.free := by
+    simp [demoOut, demoIn, demoB, demoO, demoLeaf, demoLeaf3, Expr.free, physIn, physOut, braEdge, opEdge]
+  have hKOswf : (Expr.dot demoK demoO demoIn).SWF := by
+    refine ⟨hK, hO, hKO, hin, ?_, ?_⟩ <;> simp [demoIn, physIn]
+  refine ⟨⟨hKOswf, hB, ?_, ?_, ?_, ?_⟩, hK.wf, hO.wf, hB.wf, hKO, hKB, hOB, by decide, hin, hout, fun _ _ => rfl, ?_⟩
+  · intro l hl
+    simp only [Expr.labels, List.mem_append] at hl
+    rcases hl with hl | hl
+    · exact hKB l hl
+    · exact hOB l hl
+  · intro p hp
+    refine ⟨?_, (hout p hp).2⟩
+    simp only [Expr.free, List.mem_append, List.mem_filter]
+    exact Or.inr ⟨(hout p hp).1.1, by simpa using (hout p hp).1.2⟩
+  · simp [demoOut, physOut]
+  · simp [demoOut, physOut]
+  · intro σ
+    simp only [demoE3]
+    rw [Expr.leafProd_dot, Expr.leafProd_dot]
+
+/-! ### `as_matrix_value_partial` -/
+
+/-- operator tensors of the two-node tree that read all their legs -/
+def demoOv (i : Nat) : Asg Leg → Int :=
+  fun σ => (σ (Leg.gOp i (1 - i)) : Int) + 2 * (σ (Leg.gOpOut i) : Int) + 3 * (σ (Leg.gOpIn i) : Int) + 1
+
+example : demoTree.ids.Nodup ∧ OpLocal demoOv demoTree := by
+  refine ⟨by decide, ?_⟩
+  intro e he
+  have : e = (0, none, [1]) ∨ e = (1, some 0, []) := by simpa [demoTree, Tree.info, Tree.infoL, Tree.id] using he
+  rcases this with rfl | rfl <;> intro σ τ h <;>
+    simp only [demoOv] <;>
+    rw [h _ (by simp [gOpT, T.fresh, Node.nbrs]), h _ (by simp [gOpT, T.fresh, Node.nbrs]),
+      h _ (by simp [gOpT, T.fresh, Node.nbrs])]
 
 end Ptn.C04
